@@ -137,6 +137,12 @@ def ev(n, env, funcs=None):
             return (min if fname == 'min' else max)(args)
         if fname in ('abs', 'fabs') and len(args) == 1:
             return abs(args[0])
+        if fname == 'len' and len(args) == 1 and isinstance(args[0], (list, tuple, dict, str)):
+            return len(args[0])
+        if fname == 'range' and isinstance(f, ast.Name) and all(isinstance(a, int) for a in args):
+            return list(range(*args))
+        if fname == 'enumerate' and isinstance(f, ast.Name) and len(args) == 1 and isinstance(args[0], (list, tuple)):
+            return list(enumerate(args[0]))
         if fname in ('int', 'float', 'bool') and len(args) == 1:
             return {'int': int, 'float': float, 'bool': bool}[fname](args[0])
         if funcs and fname in funcs:
@@ -260,6 +266,8 @@ def run_block(stmts, env, funcs=None, limit=10000):
                 r = run_block(s.orelse, env, funcs)
             if r[0] != 'fall':
                 return r
+        elif isinstance(s, ast.Continue):
+            return ('continue', None)
         elif isinstance(s, ast.Return):
             return ('return', ev(s.value, env, funcs) if s.value is not None else None)
         elif isinstance(s, (ast.Pass,)):
@@ -268,6 +276,19 @@ def run_block(stmts, env, funcs=None, limit=10000):
             pass
         elif isinstance(s, ast.Expr) and isinstance(s.value, ast.Call):
             ev(s.value, env, funcs)
+        elif isinstance(s, ast.For):
+            it = ev(s.iter, env, funcs)
+            n_it = 0
+            for item in it:
+                n_it += 1
+                if n_it > limit:
+                    raise Unsupported('loop bound')
+                _bind(s.target, item, env)
+                r = run_block(s.body, env, funcs, limit)
+                if r[0] == 'break':
+                    break
+                if r[0] == 'return':
+                    return r
         elif isinstance(s, ast.Break):
             return ('break', None)
         elif isinstance(s, ast.Continue):
